@@ -525,7 +525,7 @@ func cmdReplay(args []string) int {
 	if len(rs) != 1 {
 		fatal(fmt.Errorf("no replay result"))
 	}
-	fmt.Printf("replay %s %v vector=%v\n  expected: %s\n  native:   %s %s\n", rf.Harness, rf.Params, rf.Vector, rf.Expect, rs[0].Outcome, rs[0].Detail)
+	fmt.Printf("replay %s %v vector=%v\n  expected: %s\n  native:   %s %s\n  observations: %v\n", rf.Harness, rf.Params, rf.Vector, rf.Expect, rs[0].Outcome, rs[0].Detail, rs[0].Obs)
 	if rs[0].Outcome == "ok" || rs[0].Outcome == "assume" {
 		fmt.Println("NOT REPRODUCED")
 		return 0
